@@ -123,7 +123,7 @@ class FuncSignalDriver:
             self.objs.append(self._new(last['g'], last['fn']))
         elif op == 'Read':
             self.read(i, last['res'], 'objs[%d].values' % (i + 1))
-        elif op in ('Shift', 'IMul', 'IDiv', 'Filter', 'SetBuffers', 'SetBuffersFail', 'Resample', 'AssignTimes'):
+        elif op in ('Shift', 'IMul', 'IDiv', 'Filter', 'SetBuffers', 'SetBuffersFail', 'Resample', 'AssignTimes', 'AugTimes'):
             for o, sc in self.objs[i].each():
                 if o is None:
                     continue
@@ -157,6 +157,8 @@ class FuncSignalDriver:
                     o.resample(last['n'])
                 elif op == 'AssignTimes':
                     o.times = ticks(last['g']) * sc
+                elif op == 'AugTimes':
+                    o.times += last['d'] / 2.0 * sc
         elif op in ('Copy', 'Mul', 'WithTimes', 'Add'):
             new = []
             for k, (o, sc) in enumerate(self.objs[i].each()):
